@@ -183,6 +183,10 @@ class WakePotential(EFMethod):
                 # class invariant re-established (so that the next call is again history free)
                 ('inv.wl_upper_zero', {'C18'}, Implies(And(i >= nmax / 2, i < nmax), And(cx.sel(WL, i, 're') == 0, cx.sel(WL, i, 'im') == 0))),
                 ('inv.pad_zero_outside', {'C18'}, Implies(And(k >= 0, k < nmax, outside_all(cx, k)), cx.sel(BP, k) == 0)),
+                # the form-factor buffer is shared with updateCSR, which reads ALL nmax elements: what lies above n/2 (never
+                # written by the forward transform) must stay what it was, or a later CSR spectrum depends on this call
+                ('inv.formfactor_upper_untouched', {'C18'}, Implies(And(i > nmax / 2, i < nmax), And(cx.sel(FF, i, 're') == cx.old.sel(FF, i, 're'),
+                                                                                                   cx.sel(FF, i, 'im') == cx.old.sel(FF, i, 'im')))),
                 ('frame', {'C12', 'C18'}, And(cx.arr('this._phasespace._projection') == cx.old.arr('this._phasespace._projection'),
                                                cx.arr('this._impedance._data', 're') == cx.old.arr('this._impedance._data', 're')))]
         return out
